@@ -284,7 +284,15 @@ func c14Batch(seed int64, b int, out *childOut) {
 		delete(gotExtra, "process_args")
 		wantExtra := map[string]any{}
 		_ = json.Unmarshal([]byte(jsonOf(map[string]any{"action": exp.Summary.Action, "how": exp.Summary.How, "object": exp.Summary.Object})), &wantExtra)
-		if !reflect.DeepEqual(gotExtra, wantExtra) {
+		// action/how/object must be there with the summarised values; a key the
+		// statement does not mention is not this check's business
+		extraDiffers := false
+		for k, v := range wantExtra {
+			if g, ok := gotExtra[k]; !ok || !reflect.DeepEqual(g, v) {
+				extraDiffers = true
+			}
+		}
+		if extraDiffers {
 			out.violation(sig+":summary", fmt.Sprintf("metadata.extra %s, summary of the record group %s", jsonOf(gotExtra), jsonOf(wantExtra)), wit)
 		}
 		if len(exp.Process.Args) > 0 {
@@ -297,7 +305,8 @@ func c14Batch(seed int64, b int, out *childOut) {
 			}
 		} else {
 			out.add("events_without_args", 1)
-			if hasArgs {
+			// an empty or null list claims no arguments; anything else is invented
+			if hasArgs && jsonOf(gotArgs) != "null" && jsonOf(gotArgs) != "[]" {
 				out.violation(sig+":process_args-present-without-args", "process_args "+jsonOf(gotArgs), wit)
 			}
 		}
